@@ -99,6 +99,7 @@ def install_all(E, quiet=True, hashes=True, secp=True):
     import irsym
     irsym.install_std_stubs(E)
     irsym.install_string_stubs(E)
+    import libc; libc.install(E)
     E.stubs['_ZNKSt13runtime_error4whatEv'] = lambda E, st, fr, I, A: E.cstring(st, b'exception')
     E.stubs['_ZNKSt9exception4whatEv'] = lambda E, st, fr, I, A: E.cstring(st, b'exception')
     E.stubs['_ZNKSt11logic_error4whatEv'] = lambda E, st, fr, I, A: E.cstring(st, b'exception')
